@@ -6,7 +6,7 @@ TIER=quick
 cd /repo
 if [ -n "$(git status --porcelain)" ]; then echo "/repo not clean"; exit 9; fi
 if ! git apply "$PATCH" 2>/dev/null; then
-  if ! git apply -3 "$PATCH"; then echo "PATCH DOES NOT APPLY"; git checkout -- . ; exit 8; fi
+  if ! git apply -3 "$PATCH" >/dev/null 2>&1; then echo "PATCH DOES NOT APPLY"; git reset -q --hard HEAD; exit 8; fi
   git reset -q
 fi
 trap 'git -C /repo checkout -- . ; git -C /repo clean -fdq' EXIT
